@@ -21,6 +21,11 @@ const (
 
 type pathEnd struct{}
 
+// ghost "visited" sets of map iterations (heap names IT!...)
+var iterMapTerm = map[string]string{}
+var iterKeyType = map[string]types.Type{}
+var iterOf = map[*ssa.Range]string{}
+
 // run executes the state until all paths starting from it have ended.
 func (e *Engine) run(st *State) {
 	defer func() {
@@ -332,6 +337,7 @@ func (e *Engine) step(st *State, fr *Frame, ins ssa.Instruction) {
 		}
 		id := st.freshRef("clo_" + fn.Name())
 		fr.regs[x] = Val{S: id, T: x.Type(), C: c}
+		e.checkCaptured(st, fr, fn, c.Bindings, x)
 	case *ssa.MakeMap:
 		r := st.freshRef("map")
 		m := x.Type().Underlying().(*types.Map)
@@ -406,6 +412,15 @@ func (e *Engine) step(st *State, fr *Frame, ins ssa.Instruction) {
 	case *ssa.Range:
 		m := e.val(st, fr, x.X)
 		fr.regs[x] = Val{S: m.S, T: x.X.Type()} // iterator remembers the collection
+		if mt, isMap := x.X.Type().Underlying().(*types.Map); isMap {
+			// ghost set of the keys visited so far
+			ks := sortOf(mt.Key())
+			hn := fmt.Sprintf("IT!%s!%d", funcDisplayName(fr.fn), x.Pos())
+			iterMapTerm[hn] = m.S
+			iterKeyType[hn] = mt.Key()
+			st.setHeap(hn, fmt.Sprintf("(Array %s Bool)", ks), fmt.Sprintf("((as const (Array %s Bool)) false)", ks))
+			iterOf[x] = hn
+		}
 	case *ssa.Next:
 		e.execNext(st, fr, x)
 	case *ssa.Phi:
@@ -1161,11 +1176,25 @@ func (e *Engine) execNext(st *State, fr *Frame, x *ssa.Next) {
 		return
 	}
 	mt := it.T.Underlying().(*types.Map)
-	dn, vn, ds, vs, _ := mapHeapNames(mt)
+	dn, vn, ds, vs, ks := mapHeapNames(mt)
 	k := st.freshVal("next_k", mt.Key())
 	dom := sel(st.heap(dn, ds), it.S)
 	vals := sel(st.heap(vn, vs), it.S)
 	st.assume(implies(ok, and(not(eq(it.S, "0")), sel(dom, k.S))))
+	if rg, isRange := x.Iter.(*ssa.Range); isRange {
+		if hn, has := iterOf[rg]; has {
+			// every key is yielded exactly once; iteration ends when all keys were visited (the map is assumed not to be
+			// modified while it is ranged over)
+			hsort := fmt.Sprintf("(Array %s Bool)", ks)
+			vis := st.heap(hn, hsort)
+			st.assume(implies(ok, not(sel(vis, k.S))))
+			st.assume(fmt.Sprintf("(forall ((k!v %s)) (! (=> (select %s k!v) (and (not (= %s 0)) (select %s k!v))) :pattern ((select %s k!v))))", ks, vis, it.S, dom, vis))
+			st.assume(implies(not(ok), fmt.Sprintf("(forall ((k!v %s)) (! (=> (and (not (= %s 0)) (select %s k!v)) (select %s k!v)) :pattern ((select %s k!v))))", ks, it.S, dom, vis, dom)))
+			nv := st.freshConst("visited", hsort)
+			st.assume(eq(nv, ite(ok, store(vis, k.S, "true"), vis)))
+			st.setHeap(hn, hsort, nv)
+		}
+	}
 	vt := mt.Elem()
 	v := Val{S: sel(vals, k.S), T: vt}
 	if needsInv(vt) {
